@@ -118,11 +118,43 @@ def check(pm: ProgramModel, ctx: Ctx) -> None:
         ctx.check(k not in bad_exact, "C14-GUARD", f"exact:{k}", loc(fn.unit.path, loop),
                   f"children of forced relations of class {k} are added",
                   bad=(bad_exact.get(k) or [""])[0])
+    # whole function on abstract trees (covers paths that leave before / around the loop) ------------
+    from .c16 import TREES, build_tree
+    from ..model import rich_model
+    from ..roundtrip import features as all_features
+    models = {k: mb.model(build_tree(mb, spec), []) for k, spec in TREES.items()}
+    models["rich"] = rich_model(mb)
+    for name, m in models.items():
+        it = Interp(pm)
+        try:
+            got = it.call(fn, [m])
+        except AbsRaise as exc:
+            got = ("raise", exc.what)
+        want = _core(m)
+        okk = isinstance(got, list) and sorted(f._f["name"] for f in got) == sorted(f._f["name"] for f in want) \
+            and len({id(f) for f in got}) == len(got)
+        ctx.check(okk, "C14-WHOLE", f"tree:{name}", loc(fn.unit.path, fn.node),
+                  f"core features of abstract tree '{name}' are the closure of the root under forced relations",
+                  bad=f"get_core_features on abstract tree '{name}' gives "
+                      f"{[f._f['name'] for f in got] if isinstance(got, list) else got}, the always-selected "
+                      f"features are {[f._f['name'] for f in want]}")
     # exit ----------------------------------------------------------------------------------------
     ctx.ok("C14-CLOSURE", "returns-result", loc(fn.unit.path, fn.node),
            f"the list `{R}` built by the loop is what the function returns")
     check_wrapper(pm, ctx, "C14-WRAP", "FMCoreFeatures", "get_core_features", "fm_core_features")
     ctx.floor(rule, "step evaluations", n_steps, 100)
+
+
+def _core(m: AObj) -> list[AObj]:
+    out = [m._f["root"]]
+    i = 0
+    while i < len(out):
+        for r in out[i]._f["relations"]:
+            d = D(int(r._f["card_min"]), int(r._f["card_max"]), len(r._f["children"]))
+            if forced_all(d):
+                out.extend(r._f["children"])
+        i += 1
+    return out
 
 
 def _same_multiset(a: list[Any], b: list[Any]) -> bool:
